@@ -13,7 +13,7 @@
 (*   decoder's verdict.                                                    *)
 (***************************************************************************)
 EXTENDS Wire, Json
-CONSTANTS Mode, MaxFaults, Stride
+CONSTANTS Mode, MaxFaults, Stride, BigLens
 VARIABLES reg, bytes, nf, what
 vars == <<reg, bytes, nf, what>>
 
@@ -50,6 +50,7 @@ D0 == [tag |-> "primitive", prim |-> "u8"]
 Regs ==    {<<Ty(Q(0), <<Sa>>, <<>>, d, <<>>)>> : d \in Defs}                                    \* every definition
       \cup {<<Ty(i, p, <<>>, D0, dc)>> : i \in QIds, p \in Paths, dc \in DocSets}                 \* id x path x docs
       \cup {<<Ty(Q(0), <<>>, ps, D0, <<>>)>> : ps \in ParamSets}                                  \* parameters
+      \cup {Rep(Ty(Q(1), <<>>, <<>>, D0, <<>>), n) : n \in BigLens}                              \* many entries (length classes, caps)
       \cup {<<>>, Rep(Ty(Q(7), <<>>, <<>>, D0, <<>>), 2), Rep(Ty(QMAX, <<Sa>>, <<>>, D0, <<Sa>>), 64),
             <<Ty(Q(1), <<>>, <<>>, D0, <<>>), Ty(Q(0), <<>>, <<>>, [tag |-> "sequence", ty |-> Q(1)], <<>>)>>}   \* vector lengths, non-dense
 RegList == SetToSeq(Regs)
